@@ -22,6 +22,7 @@ D = {
  'D5': "D5: every admin operation (add_members, remove_members, update_group_data, self_update) is built with OpenMLS helpers that consume the whole pending-proposal store, so a roster change merely proposed by somebody else (Add or Remove(other) from a non-admin or another admin) is carried out by an unrelated admin operation",
  'D6': "D6: process_welcome writes the group row (state Pending, epoch, name, ids, relays from the invitation) before any consent; an invitation for an MLS group id the user already holds (an attacker-made group reusing the id, or another invitation to the same group) overwrites the record of an Active group, and a later accept leaves a record that does not describe the MLS state",
  'D16': "D16: accept_welcome / decline_welcome do not look at the welcome's or the group's state: accepting an invitation again rebuilds the MLS group from the Welcome (replace_old_group) and throws the current epoch away; declining sets an Active group Inactive",
+ 'D18': "D18: the MIP-03 rollback is carried out before the competing candidate is validated: any wrapper that parses as a commit for an already passed epoch and sorts before the applied commit (a captured commit re-wrapped with an older created_at, or a corrupted copy under a smaller id) makes the client roll back; when the candidate then fails the client stays on the earlier epoch with the real commit marked EpochInvalidated",
  'D8': "D8: after a restart the snapshot queue rebuilt from storage has lost the applied commits' timestamps (applied_commit_ts = 0), is_better_candidate answers false, and a commit race can no longer be resolved by rollback: the restarted client refuses the better commit that the never-restarted one applies",
  'D11': "D11: an invitation that was already accepted (or one of its sibling rumors carrying the same MLS Welcome) is processed again when it arrives under another wrapper id: process_welcome upserts the group row, so an Active or evicted (Inactive) group is reset to Pending and can be re-activated at its join epoch by accept_welcome",
  'D14': "D14: a Nostr-group-id rotation applied on a losing branch makes the winning commit (tagged with the id in force when it was created) unroutable: GroupNotFound, recorded Failed, member stays on the losing branch",
@@ -42,6 +43,7 @@ def label(s):
         # only outside clean joins: another invitation (forged, replayed, older) clobbered the record first, or an already handled invitation was accepted again
         return 'D6' if 'recipient=pending' in s else 'D16'
     if s.startswith('C16|later-events-processed-differently-after-invitation|'): return 'D6'
+    if s.startswith('C06|refused-event-changed-state|') and '|next-epoch|' in s and s.endswith('|mls+record') and ('|commit|' in s or '|proposal|' in s): return 'D18'
     if s.startswith('C11|'):
         if 'never-restarted=Commit|restarted=Unprocessable|restart-after-competitor-applied' in s: return 'D8'
         if s.startswith('C11|obs-differs|deliver(commit.') and s.endswith('|restart-after-competitor-applied'): return 'D8'
